@@ -35,6 +35,18 @@ def main(argv):
         pass
     from harness import common
     from sim import core
+
+    # a harness hang (a real blocking call reached from simulated code) must never look like a pass or
+    # like a violation: after the wall-clock limit, exit 3
+    import threading
+
+    def _give_up():
+        print('HARNESS-ERROR wall-clock limit reached (a simulated thread is probably blocked in a real call)', flush=True)
+        os._exit(3)
+    limit = float(os.environ.get('VERIF_WALL_S', '0')) or (common.budget_s(900 if argv[2] != 'thorough' else 3600) + 1500)
+    wd = threading.Timer(limit, _give_up)
+    wd.daemon = True
+    wd.start()
     try:
         mod = importlib.import_module(CHECKS[pid])
         if argv[2] == '--replay':
